@@ -191,3 +191,32 @@ func VerifC09_MergeSlices(cs int) {
 	VsAssert("slice-merge-and-later-changes-leave-left-untouched", VsStrEq(l2, lStr))
 	VsAssert("slice-merge-and-later-changes-leave-right-untouched", VsStrEq(r2, rStr))
 }
+
+// VerifC09_MergeFunctions: the exported merge function applied directly to two nodes of the caller
+// (not through MergeNodeSlices, which copies first): it returns nil for nodes that are not equal and a
+// fresh merged node for equal ones; either way both arguments stay as they were, also after the result
+// is changed. cs%3, cs/3%3: children of the two nodes, cs/9%2: grandchildren.
+func VerifC09_MergeFunctions(cs int) {
+	left := vSmallTree("l", cs%3, cs/9%2 == 1)
+	right := vSmallTree("r", cs/3%3, cs/9%2 == 1)
+	// the first children are compared as well: nodes of every kind, equal or not as the solver pleases
+	pairs := [][2]Node{{left, right}}
+	if len(left.Nodes()) > 0 && len(right.Nodes()) > 0 {
+		pairs = append(pairs, [2]Node{left.Nodes()[0], right.Nodes()[0]})
+	}
+	lBefore, rBefore := left.GEDCOMString(0), right.GEDCOMString(0)
+	VsReach("merge-function-applied")
+	for _, p := range pairs {
+		out := EqualityMergeFunction(p[0], p[1], NewDocument())
+		VsAssert("equality-merge-function-merges-exactly-the-equal-nodes", VsIff(!IsNil(out), p[0].Equals(p[1])))
+		VsAssert("merge-function-leaves-left-untouched", VsStrEq(left.GEDCOMString(0), lBefore))
+		VsAssert("merge-function-leaves-right-untouched", VsStrEq(right.GEDCOMString(0), rBefore))
+		if IsNil(out) {
+			continue
+		}
+		VsAssert("merge-function-result-shares-no-node-with-its-arguments", !vSharesNode(out, p[0]) && !vSharesNode(out, p[1]))
+		vMutateAll(out, 0)
+		VsAssert("changing-the-merge-function-result-leaves-left-untouched", VsStrEq(left.GEDCOMString(0), lBefore))
+		VsAssert("changing-the-merge-function-result-leaves-right-untouched", VsStrEq(right.GEDCOMString(0), rBefore))
+	}
+}
